@@ -648,7 +648,9 @@ Expr={expr}"""
             # exacerbated by the fact that the list contains duplicates.  This is a patch until
             # we can create a better fix for Serialization.
             try:
-                values = list(set(values))
+                # drop duplicates but keep the order: ``set`` iteration order depends on
+                # PYTHONHASHSEED and the values are part of the expression's name
+                values = list(dict.fromkeys(values))
             except TypeError:
                 pass
             if not any(is_dask_collection(v) for v in values):
